@@ -73,6 +73,7 @@ class Fn:
         self.assigned = {}      # name -> list of value exprs (None for non-simple assignment)
         self.unpacked = {}      # name -> (callee name, position) for `a, b = f(...)`
         self.index_of = {}      # name -> set of list names
+        self.zip_index = []     # (index name, list of (index, line) pairs, list zipped with it)
         self.scan()
 
     @property
@@ -106,10 +107,36 @@ class Fn:
                         and it.args and isinstance(it.args[0], ast.Name)
                         and isinstance(n.target, ast.Tuple) and isinstance(n.target.elts[0], ast.Name)):
                     self.index_of.setdefault(n.target.elts[0].id, set()).add(it.args[0].id)
+                # `K = [(j, l) for j, l in enumerate(L) if ...]` ... `X = detect_and_strip_indentation([l for _, l in K])`
+                # ... `for (j, _), line in zip(K, X)`: X holds the (dedented) lines of L that pass the filter and j is the
+                # position of `line` in L, i.e. relative to the extracted block - classified like an index of the dedented
+                # sub-list X (what it was before comment lines were taken out of the dedent)
+                if (isinstance(n, ast.For) and isinstance(it, ast.Call) and isinstance(it.func, ast.Name) and it.func.id == "zip"
+                        and len(it.args) == 2 and all(isinstance(a, ast.Name) for a in it.args)
+                        and isinstance(n.target, ast.Tuple) and len(n.target.elts) == 2
+                        and isinstance(n.target.elts[0], ast.Tuple) and isinstance(n.target.elts[0].elts[0], ast.Name)):
+                    self.zip_index.append((n.target.elts[0].elts[0].id, it.args[0].id, it.args[1].id))
             elif isinstance(n, ast.Subscript) and isinstance(n.value, ast.Name):
                 s = n.slice
                 if isinstance(s, ast.Name):
                     self.index_of.setdefault(s.id, set()).add(n.value.id)
+        for j, kname, xname in self.zip_index:
+            kv = self.assigned.get(kname, [])
+            xv = self.assigned.get(xname, [])
+            ok = (len(kv) == 1 and isinstance(kv[0], ast.ListComp) and len(kv[0].generators) == 1
+                  and isinstance(kv[0].elt, ast.Tuple) and isinstance(kv[0].elt.elts[0], ast.Name)
+                  and isinstance(kv[0].generators[0].iter, ast.Call)
+                  and getattr(kv[0].generators[0].iter.func, "id", "") == "enumerate"
+                  and isinstance(kv[0].generators[0].target, ast.Tuple)
+                  and isinstance(kv[0].generators[0].target.elts[0], ast.Name)
+                  and kv[0].generators[0].target.elts[0].id == kv[0].elt.elts[0].id
+                  and len(xv) == 1 and isinstance(xv[0], ast.Call)
+                  and getattr(xv[0].func, "id", "") == "detect_and_strip_indentation"
+                  and len(xv[0].args) == 1 and isinstance(xv[0].args[0], ast.ListComp)
+                  and isinstance(xv[0].args[0].generators[0].iter, ast.Name)
+                  and xv[0].args[0].generators[0].iter.id == kname)
+            if ok:
+                self.index_of[j] = {xname}
         changed = True
         while changed:          # a = b where a is an index of L makes b an index of L
             changed = False
